@@ -68,10 +68,12 @@ def body(c, d, R, S, por):
     c.inv("idle_iff_no_sequence", fsm.is_("IDLE") == (active == 0))
     c.inv("resetting_iff_first_R_cycles", fsm.is_("RESETTING") == in_reset)
     c.inv("deferring_iff_last_S_cycles", fsm.is_("DEFERRING_STARTUP") == in_stop)
-    cnt = ts.find("cycles_in_reset")
-    if cnt and ts.sig(cnt[0]) is not None:
-        k = ts.sig(cnt[0])
-        c.inv("counter_is_time_in_phase", zx(k, W) == z3.If(active == 0, bvc(0, W), z3.If(z3.ULT(t, R), t, t - R)))
+    # the phase counter, whatever it is called: proposed for every register of the unit that is not the FSM state and kept
+    # only if inductive (Houdini) -- no internal name is relied upon
+    in_phase = z3.If(active == 0, bvc(0, W), z3.If(z3.ULT(t, R), t, t - R))
+    for key, var in ts.state.items():
+        if key[0] == 'ff' and not str(var).endswith("fsm_state") and var.size() <= W:
+            c.candidate(f"{str(var).replace('.', '_').replace('$', '_')}_is_time_in_phase", zx(var, W) == in_phase)
 
     c.ensure("phy_reset_iff_first_R_cycles_of_sequence", (O["phy_reset"] == 1) == in_reset,
              clause="a triggered (or power-on) reset asserts the PHY reset for exactly the configured number of cycles")
